@@ -21,8 +21,9 @@ import (
 )
 
 type HistCase struct {
-	Kind string   `json:"kind"` // "history"
-	Ops  []string `json:"ops"`
+	Kind  string   `json:"kind"` // "history"
+	Ops   []string `json:"ops"`
+	Fresh bool     `json:"fresh_type"` // the struct type is new to the process when the history starts
 }
 
 type histS struct {
@@ -35,7 +36,8 @@ type histOp struct {
 	Run  func() string // "" when the call behaved as specified, else what differed
 }
 
-func histMenu() []histOp {
+// histMenu builds the menu for struct type t, which must have fields A int32 `nbt:"a"` and B string `nbt:"b"` first.
+func histMenu(t reflect.Type) []histOp {
 	cmp := func(f ...refnbt.Field) *refnbt.Node { return &refnbt.Node{Tag: refnbt.Compound, Fields: f} }
 	fa := refnbt.Field{Name: "a", Val: &refnbt.Node{Tag: refnbt.Int, I: 5}}
 	fb := refnbt.Field{Name: "b", Val: &refnbt.Node{Tag: refnbt.String, S: "hi"}}
@@ -50,14 +52,20 @@ func histMenu() []histOp {
 	docNested := refnbt.Append(nil, "", nested, false)
 	payX := refnbt.AppendPayload(nil, withExtra)
 	payClean := refnbt.AppendPayload(nil, clean)
-	want := histS{A: 5, B: "hi"}
+	type histS = reflect.Value
+	newS := func() reflect.Value { return reflect.New(t).Elem() }
+	wantV := newS()
+	wantV.Field(0).SetInt(5)
+	wantV.Field(1).SetString("hi")
+	want := wantV.Interface()
+	docUpper := refnbt.Append(nil, "", cmp(refnbt.Field{Name: "A", Val: fa.Val}, fx, refnbt.Field{Name: "B", Val: fb.Val}), false)
 	wantAny := map[string]any{"a": int32(5), "extra": "q", "b": "hi"}
 	okS := func(err error, got histS) string {
 		if err != nil {
 			return fmt.Sprintf("a well-formed document was rejected: %v", err)
 		}
-		if got != want {
-			return fmt.Sprintf("decoded %+v, the document says %+v", got, want)
+		if !reflect.DeepEqual(got.Interface(), want) {
+			return fmt.Sprintf("decoded %+v, the document says %+v", got.Interface(), want)
 		}
 		return ""
 	}
@@ -69,42 +77,46 @@ func histMenu() []histOp {
 	}
 	return []histOp{
 		{"Unmarshal(extra-key doc, *struct)", func() string {
-			var s histS
-			return okS(nbt.Unmarshal(docX, &s), s)
+			s := newS()
+			return okS(nbt.Unmarshal(docX, s.Addr().Interface()), s)
+		}},
+		{"Unmarshal(upper-case-key doc, *struct)", func() string {
+			s := newS()
+			return okS(nbt.Unmarshal(docUpper, s.Addr().Interface()), s)
 		}},
 		{"Unmarshal(nested extra-key doc, *struct)", func() string {
-			var s histS
-			return okS(nbt.Unmarshal(docNested, &s), s)
+			s := newS()
+			return okS(nbt.Unmarshal(docNested, s.Addr().Interface()), s)
 		}},
 		{"RawMessage.Unmarshal(extra-key, *struct)", func() string {
-			var s histS
-			return okS(nbt.RawMessage{Type: nbt.TagCompound, Data: payX}.Unmarshal(&s), s)
+			s := newS()
+			return okS(nbt.RawMessage{Type: nbt.TagCompound, Data: payX}.Unmarshal(s.Addr().Interface()), s)
 		}},
 		{"RawMessage.UnmarshalDisallowUnknownField(extra-key, *struct)", func() string {
-			var s histS
-			return mustErr(nbt.RawMessage{Type: nbt.TagCompound, Data: payX}.UnmarshalDisallowUnknownField(&s), "the compound has a key the struct does not declare")
+			s := newS()
+			return mustErr(nbt.RawMessage{Type: nbt.TagCompound, Data: payX}.UnmarshalDisallowUnknownField(s.Addr().Interface()), "the compound has a key the struct does not declare")
 		}},
 		{"RawMessage.UnmarshalDisallowUnknownField(clean, *struct)", func() string {
-			var s histS
-			return okS(nbt.RawMessage{Type: nbt.TagCompound, Data: payClean}.UnmarshalDisallowUnknownField(&s), s)
+			s := newS()
+			return okS(nbt.RawMessage{Type: nbt.TagCompound, Data: payClean}.UnmarshalDisallowUnknownField(s.Addr().Interface()), s)
 		}},
 		{"Decoder+DisallowUnknownFields.Decode(extra-key, *struct)", func() string {
-			var s histS
+			s := newS()
 			d := nbt.NewDecoder(bytes.NewReader(docX))
 			d.DisallowUnknownFields()
-			_, err := d.Decode(&s)
+			_, err := d.Decode(s.Addr().Interface())
 			return mustErr(err, "the compound has a key the struct does not declare")
 		}},
 		{"Decoder.Decode(extra-key, *struct)", func() string {
-			var s histS
-			_, err := nbt.NewDecoder(bytes.NewReader(docX)).Decode(&s)
+			s := newS()
+			_, err := nbt.NewDecoder(bytes.NewReader(docX)).Decode(s.Addr().Interface())
 			return okS(err, s)
 		}},
 		{"Decoder+NetworkFormat.Decode(extra-key network doc, *struct)", func() string {
-			var s histS
+			s := newS()
 			d := nbt.NewDecoder(bytes.NewReader(docXNet))
 			d.NetworkFormat(true)
-			_, err := d.Decode(&s)
+			_, err := d.Decode(s.Addr().Interface())
 			return okS(err, s)
 		}},
 		{"Unmarshal(extra-key doc, *any)", func() string {
@@ -128,8 +140,8 @@ func histMenu() []histOp {
 			return ""
 		}},
 		{"Unmarshal(truncated doc, *struct)", func() string {
-			var s histS
-			return mustErr(nbt.Unmarshal(docX[:len(docX)-4], &s), "the document ends inside a value")
+			s := newS()
+			return mustErr(nbt.Unmarshal(docX[:len(docX)-4], s.Addr().Interface()), "the document ends inside a value")
 		}},
 		{"Unmarshal(unknown tag id, *any)", func() string {
 			var v any
@@ -138,8 +150,8 @@ func histMenu() []histOp {
 		{"Unmarshal(network doc as file format, *struct)", func() string {
 			// a network document read as file format takes the first key's tag byte as a name length: anything but a panic
 			// is acceptable, so this entry only perturbs the state for the calls after it
-			var s histS
-			_ = nbt.Unmarshal(docXNet, &s)
+			s := newS()
+			_ = nbt.Unmarshal(docXNet, s.Addr().Interface())
 			return ""
 		}},
 		{"Marshal(struct)", func() string {
@@ -197,41 +209,69 @@ func runHistory(menu []histOp, idx []int) (class, detail string) {
 	return "", ""
 }
 
-func histories(K int) {
-	menu := histMenu()
-	var n int64
-	idx := make([]int, 0, K)
-	var rec func()
-	rec = func() {
-		if len(idx) > 0 {
-			n++
-			if class, detail := runHistory(menu, idx); class != "" {
-				ops := make([]string, len(idx))
-				for j, i := range idx {
-					ops[j] = menu[i].Name
+// freshType returns a struct type no earlier call in this process has seen: the fields of histS plus an
+// ignored field whose name is unique, so that go-mc's per-type cache has no entry for it yet and the
+// first call of the history is also the first use of the type (by an encoder or by a decoder).
+var freshCount int
+
+func freshType() reflect.Type {
+	freshCount++
+	base := reflect.TypeOf(histS{})
+	return reflect.StructOf([]reflect.StructField{base.Field(0), base.Field(1),
+		{Name: fmt.Sprintf("X%d", freshCount), Type: reflect.TypeOf(int8(0)), Tag: `nbt:"-"`}})
+}
+
+// histories runs every call sequence of length <= K on the static type and every sequence of length
+// <= Kfresh on a type that is new to the process at the start of the sequence.
+func histories(K, Kfresh int) {
+	static := histMenu(reflect.TypeOf(histS{}))
+	var n, nFresh int64
+	walk := func(K int, fresh bool) {
+		idx := make([]int, 0, K)
+		var rec func()
+		rec = func() {
+			if len(idx) > 0 {
+				menu := static
+				if fresh {
+					menu = histMenu(freshType())
+					nFresh++
 				}
-				rep.Fail(engine.Failure{Class: class, Detail: detail, Case: HistCase{"history", ops}}, len(idx))
-				return // longer histories with this prefix fail in the same place
+				n++
+				if class, detail := runHistory(menu, idx); class != "" {
+					ops := make([]string, len(idx))
+					for j, i := range idx {
+						ops[j] = menu[i].Name
+					}
+					if fresh {
+						class += "/type-new-to-the-process"
+					}
+					rep.Fail(engine.Failure{Class: class, Detail: detail, Case: HistCase{"history", ops, fresh}}, len(idx))
+					return // longer histories with this prefix fail in the same place
+				}
+			}
+			if len(idx) == K {
+				return
+			}
+			for i := range static {
+				idx = append(idx, i)
+				rec()
+				idx = idx[:len(idx)-1]
 			}
 		}
-		if len(idx) == K {
-			return
-		}
-		for i := range menu {
-			idx = append(idx, i)
-			rec()
-			idx = idx[:len(idx)-1]
-		}
+		rec()
 	}
-	rec()
+	walk(K, false)
+	walk(Kfresh, true)
 	rep.Eval(n)
 	rep.NonTrivial(n)
 	rep.AddStates(n)
 	rep.Count("call_histories", n)
+	rep.Count("call_histories_on_a_type_new_to_the_process", nFresh)
 	rep.Extra("call_history_depth", K)
+	rep.Extra("call_history_depth_fresh_type", Kfresh)
 	rep.Extra("call_history_menu", func() []string {
 		var s []string
-		for _, o := range menu {
+		for _, o := range static {
 			s = append(s, o.Name)
 		}
 		return s
@@ -239,7 +279,7 @@ func histories(K int) {
 }
 
 func replayHistory(c HistCase) {
-	menu := histMenu()
+	menu := histMenu(reflect.TypeOf(histS{}))
 	var idx []int
 	for _, name := range c.Ops {
 		found := -1
@@ -255,6 +295,9 @@ func replayHistory(c HistCase) {
 	}
 	fmt.Printf("replaying the call history %q\n", c.Ops)
 	for i := 0; i < 5; i++ {
+		if c.Fresh {
+			menu = histMenu(freshType())
+		}
 		if class, detail := runHistory(menu, idx); class != "" {
 			rep.Fail(engine.Failure{Class: class, Detail: detail, Case: c}, len(idx))
 		}
